@@ -216,8 +216,14 @@ impl Output {
                 self.create_file_non_lazily(file_size)?
             }
         };
+        #[cfg(wild_verif)]
+        crate::verif::point("output-created")?;
         write_fn(&mut sized_output, layout)?;
+        #[cfg(wild_verif)]
+        crate::verif::point("sections-written")?;
         sized_output.flush()?;
+        #[cfg(wild_verif)]
+        crate::verif::point("output-flushed")?;
         sized_output.trace.close()?;
 
         // While we have the output file mmapped with write permission, the file will be locked and
@@ -226,6 +232,8 @@ impl Output {
             timing_phase!("Unmap output file");
             drop(sized_output);
         }
+        #[cfg(wild_verif)]
+        crate::verif::point("output-unmapped")?;
 
         Ok(())
     }
